@@ -195,7 +195,12 @@ def run(ctx):
                     if not st_writes:
                         continue
                     taken = [y for y in b.calls if y.name in ("take", "replace") and "core::mem" in y.defpath and y.args and src_root(b, y.args[0]) == 1 and b.dominates(y.block, x.block)]
-                    ok, wit = b.must_pass([ve["Err"]], st_writes)
+                    # on every way from the inner decode through its Err outcome to a return the state is written - before the match on the
+                    # result (`if !matches!(result, Ok(None)) { state = .. }`) or inside its Err arm; the search keeps the outcome consistent
+                    # across several matches on the same result
+                    others = {t_ for v_, t_ in ve.items() if t_ != ve["Err"]} | ({si["otherwise"]} if si.get("otherwise") not in (None, ve["Err"]) else set())
+                    wit = b.path_avoiding(b.succ[x.block], set(b.exits()), avoid=st_writes | others, assume=b.variant_assumption(si, "Err")) if x.block not in st_writes else None
+                    ok = wit is None
                     ok = ok or bool(taken)
                     r.check(ok, "%s/inner-error-resets-state" % tag, x.loc(), "after the inner decoder fails the state is rewritten before returning",
                             "the inner decoder's error leaves the outer state unchanged: the next frame is parsed as a body (%s)" % wit)
